@@ -166,6 +166,7 @@ class NoiseServer(object):
         """corrupt_hello = True: first payload byte flipped (above); or a string naming another way in which the reply is not the
         authentic one: <field>_flip (last byte), <field>_short (truncated to 10 bytes), <field>_empty, no_server_hello, garbage"""
         how = self.corrupt_hello
+        self.last_damage_certain = True
         if not isinstance(how, str):
             return sh.SerializeToString()
         if how == "no_server_hello":
@@ -174,6 +175,33 @@ class NoiseServer(object):
             return m.SerializeToString()
         if how == "garbage":
             return b"\xff\xfe\xfd\x00\x01garbage"
+        if "@" in how:
+            # generated damage: <field>_flip@<pos>@<mask>, <field>_cut@<n> (only the first n bytes), <field>_long@<n> (n bytes more);
+            # field "wire" = the serialised handshake message itself (its protobuf framing)
+            head, rest = how.split("@", 1)
+            field, what = head.rsplit("_", 1)
+            nums = [int(x) for x in rest.split("@")]
+            cur = sh.SerializeToString() if field == "wire" else bytes(getattr(sh.server_hello, field))
+            if what == "flip":
+                if cur:
+                    pos = nums[0] % len(cur)
+                    new = cur[:pos] + bytes([cur[pos] ^ ((nums[1] % 255) + 1)]) + cur[pos + 1:]
+                else:
+                    new = b"\x01"
+            elif what == "cut":
+                # (an empty handshake *message* would be an empty frame, which is outside the framing layer's domain)
+                new = cur[:nums[0] % (len(cur) + 1)] if field != "wire" else cur[:1 + nums[0] % len(cur)]
+            elif what == "long":
+                new = cur + bytes((i * 7 + 3) & 0xFF for i in range(1 + nums[0] % 40))
+            else:
+                raise ValueError(how)
+            # certainly not the authentic reply: a changed key or ciphertext field (the framing of the message is not authenticated:
+            # damage there may turn out to be none)
+            self.last_damage_certain = field != "wire" and new != cur
+            if field == "wire":
+                return new
+            setattr(sh.server_hello, field, new)
+            return sh.SerializeToString()
         field, what = how.rsplit("_", 1)
         cur = bytes(getattr(sh.server_hello, field))
         if what == "flip":
